@@ -62,4 +62,14 @@ cfg("MC_C20_quick.cfg", N3, [1], 30, 18, 1, "Limit_Copy", ["create", "copy", "at
 cfg("MC_C20.cfg", N3, [1], 30, 19, 1, "Limit_Copy", ["create", "copy", "attr", "data", "delete", "link"], ["NameExists"], "Script_Copy", props=C20P, copykeep=["FALSE"])
 cfg("MC_C20_mut.cfg", N3, [1, 2], 30, 20, 1, "Limit_Copy", ["create", "link", "copy", "attr", "data", "delete"], [], "Script_Copied", props=C20P, copykeep=["FALSE"])
 cfg("MC_C20_keep.cfg", N3, [1], 30, 18, 1, "Limit_Copy", ["create", "link", "copy", "attr", "data"], ["NameExists"], "Script_Copy", inv=[i for i in INV if i != "EidUnique"], props=C20P, copykeep=["TRUE"])
+# C02 / C05: link, unlink, link again (a link list that became empty in between) after the scripted prefix
+cfg("MC_C02_relink.cfg", N2, [1], 6, 9, 1, "Limit_Small", ["create", "link"], [], "Script_Small")
+cfg("MC_C02_relink4.cfg", N2, [1], 6, 10, 1, "Limit_Small", ["create", "link"], [], "Script_Small")
+# simulation (-simulate): random walks are not cut by the VIEW, so calls are repeated, undone and redone
+cfg("MC_SimLinks.cfg", N2, [1, 2], 14, 32, 1, "Limit_Links", ["create", "link", "attr", "data", "delete"], ["WrongKind", "ForeignBlock", "NotMember"], "Script_Links", inv=[], props=[])
+cfg("MC_SimSmall.cfg", N2, [1, 2], 6, 24, 1, "Limit_Small", ["create", "link", "attr"], ["NotMember"], "Script_Small", inv=[], props=[])
+cfg("MC_SimChurn.cfg", N2, [1], 40, 24, 1, "Limit_C03", ["create", "delete"], ["DuplicateName", "NotFound"], "NoScript", inv=[], props=[])
+# quick-tier variants: one call after the scripted prefix (the thorough tier and the simulations go deeper)
+cfg("MC_C05_q1.cfg", N2, [1, 2], 14, 15, 1, "Limit_Links", ["create", "link", "attr", "data"], ["WrongKind", "ForeignBlock"], "Script_Links")
+cfg("MC_C19_links_q1.cfg", N2, [1, 2], 14, 15, 2, "Limit_Links", ["create", "attr", "time", "link"], [], "Script_Links")
 print("ok")
